@@ -6,6 +6,19 @@ use crate::error::{FerrousError, Result, StorageError};
 use crate::protocol::RespFrame;
 use crate::storage::StorageEngine;
 use std::sync::Arc;
+use std::time::Duration;
+
+/// Parse the expire-time argument of SET EX/PX, SETEX and PSETEX: a positive integer number of
+/// seconds (`unit_millis` = 1000) or milliseconds (`unit_millis` = 1) that fits the 64-bit
+/// millisecond clock. Zero, negative, non-integer and out-of-range values are refused.
+pub fn parse_expire_time(bytes: &[u8], unit_millis: i64) -> Option<Duration> {
+    let n = std::str::from_utf8(bytes).ok()?.parse::<i64>().ok()?;
+    if n <= 0 {
+        return None;
+    }
+    let millis = n.checked_mul(unit_millis)?;
+    Some(Duration::from_millis(millis as u64))
+}
 
 /// Handle MGET command - Get multiple keys
 pub fn handle_mget(storage: &Arc<StorageEngine>, db: usize, parts: &[RespFrame]) -> Result<RespFrame> {
@@ -281,7 +294,7 @@ pub fn handle_pexpire(storage: &Arc<StorageEngine>, db: usize, parts: &[RespFram
     
     let milliseconds = match &parts[2] {
         RespFrame::BulkString(Some(bytes)) => {
-            match String::from_utf8_lossy(bytes).parse::<u64>() {
+            match String::from_utf8_lossy(bytes).parse::<i64>() {
                 Ok(n) => n,
                 Err(_) => return Ok(RespFrame::error("ERR value is not an integer or out of range")),
             }
@@ -289,7 +302,13 @@ pub fn handle_pexpire(storage: &Arc<StorageEngine>, db: usize, parts: &[RespFram
         _ => return Ok(RespFrame::error("ERR invalid milliseconds format")),
     };
     
-    let result = storage.pexpire(db, key, milliseconds)?;
+    // A non-positive timeout deletes the key, as for EXPIRE
+    if milliseconds <= 0 {
+        let deleted = storage.delete(db, key)?;
+        return Ok(RespFrame::Integer(if deleted { 1 } else { 0 }));
+    }
+    
+    let result = storage.pexpire(db, key, milliseconds as u64)?;
     Ok(RespFrame::Integer(if result { 1 } else { 0 }))
 }
 
